@@ -227,6 +227,10 @@ theorem qf_timerBody (s : St) (t r : Nat) : QF s (timerBody s t r) := by
     · exact QF.refl s
   · exact QF.refl s
 
+/-- the record as the final critical section leaves it -/
+def recAfter (r : Rec) (out rt : Option Nat) : Rec :=
+  { r with err := out, success := out.isNone, exited := true, exitedCh := none, retry := rt }
+
 theorem allQ_recordCS {s s' : St} (h : AllQ s) (cf : Cfg) (hcf : s.cfg = some cf) (n : Nat) (x : Inst) (dur : Bool)
     (hs : recordCS s cf n x dur = some s') : AllQ s' := by
   have h1 : AllQ (setInst s n { x with recorded := true }) := h.transfer (QF.of_recs rfl rfl)
@@ -243,8 +247,7 @@ theorem allQ_recordCS {s s' : St} (h : AllQ s) (cf : Cfg) (hcf : s.cfg = some cf
         -- the record after the final section
         have key : ∀ (S : St) (rt : Option Nat), AllQ S → S.cfg = s.cfg →
             (x.out.isNone = true → rt = none) → (rt ≠ none → x.out ≠ none) → (noRetryCfg s → rt = none) →
-            ∀ T : St, T.cfg = S.cfg → T.recs = S.recs.set x.rid { r with err := x.out, success := x.out.isNone,
-              exited := true, exitedCh := none, retry := rt } → AllQ T := by
+            ∀ T : St, T.cfg = S.cfg → T.recs = S.recs.set x.rid (recAfter r x.out rt) → AllQ T := by
           intro S rt hS hc a1 a2 a3 T hT1 hT2 q y hy
           rw [hT2] at hy
           simp only [List.getElem?_set] at hy
@@ -252,7 +255,8 @@ theorem allQ_recordCS {s s' : St} (h : AllQ s) (cf : Cfg) (hcf : s.cfg = some cf
           · subst hq
             by_cases hlt : x.rid < S.recs.length
             · simp [hlt] at hy; subst hy
-              refine ⟨a1, a2, ?_⟩
+              refine ⟨by simpa [recAfter] using a1, by simpa [recAfter] using a2, ?_⟩
+              show noRetryCfg T → rt = none
               intro hn; apply a3; intro cf' hcf'; exact hn cf' (by rw [hT1, hc]; exact hcf')
             · simp [hlt] at hy
           · simp [hq] at hy
